@@ -695,6 +695,9 @@ def run_ble_parse(case, R):
         if pairing != "none":
             if pairing == "cached":
                 cache.async_create_or_update_map(hkid.upper(), 1, BLE_DB, None, 7)
+            elif pairing.startswith("cached-key"):
+                # a broadcast key is cached, the state number is missing (older cache) or 0: the pairing has no description until a regular advertisement arrives
+                cache.async_create_or_update_map(hkid.upper(), 1, BLE_DB, "ab" * 32, None if pairing.endswith("none") else 0)
             ctl.load_pairing("alias", dict(PD_IP, AccessoryPairingID=hkid.upper(), Connection="BLE", AccessoryAddress="00:11:22:33:44:55"))
         dev = BLEDevice("00:11:22:33:44:55", case.get("name", "Sim"), None)
         adv = AdvertisementData(local_name=case.get("name", "Sim"), manufacturer_data={company: mfr}, service_data={}, service_uuids=[], tx_power=None, rssi=-60, platform_data=())
@@ -723,7 +726,7 @@ def run_ble_parse(case, R):
 def enum_ble_parse(tier):
     full = regular_adv(7, bytes.fromhex("aabbcc000001"))
     enc = bytes([0x11, 0x36]) + bytes.fromhex("aabbcc000001") + bytes(16)
-    for pairing in ("none", "cached", "uncached"):
+    for pairing in ("none", "cached", "uncached", "cached-key-none", "cached-key-zero"):
         for n in range(0, len(full) + 1):
             yield {"mfr": full[:n], "pairing": pairing}
         for n in range(0, len(enc) + 1):
@@ -748,7 +751,7 @@ def ble_mfr(draw):
         data = bytes(full[:draw(st.integers(0, len(full)))])
     else:
         data = bytes([0x11, draw(st.integers(0, 255))]) + bytes.fromhex("aabbcc000001") + draw(st.binary(max_size=20))
-    return {"mfr": data, "pairing": draw(st.sampled_from(["none", "cached", "uncached"])), "company": draw(st.sampled_from([76, 76, 76, 6, 77]))}
+    return {"mfr": data, "pairing": draw(st.sampled_from(["none", "cached", "uncached", "cached-key-none", "cached-key-zero"])), "company": draw(st.sampled_from([76, 76, 76, 6, 77]))}
 
 
 def fuzz_target(data, R):
@@ -788,7 +791,7 @@ SPEC = Property(
         Layer("ble-schedules-fixed", run_ble_schedule, enumerate=enum_ble_schedules, exhaustive=True, space="3 pairing states x 2 controllers x 8 schedules", min_nontrivial=30),
         Layer("ble-schedules", run_ble_schedule, strategy=lambda: schedules(["ble", "agg-ble"], adv_lead=0.0), n={"quick": 4000, "thorough": 60000}, min_nontrivial=200),
         Layer("mdns-contents", run_mdns_parse, strategy=mdns_records, n={"quick": 4000, "thorough": 60000}, min_nontrivial=200),
-        Layer("ble-contents-truncations", run_ble_parse, enumerate=enum_ble_parse, exhaustive=True, space="every prefix of a regular (19 bytes) and an encrypted (24 bytes) advertisement x 3 pairing states; wrong company / type / category", min_nontrivial=100),
+        Layer("ble-contents-truncations", run_ble_parse, enumerate=enum_ble_parse, exhaustive=True, space="every prefix of a regular (19 bytes) and an encrypted (24 bytes) advertisement x 5 pairing states (none, cached, uncached, cached key without / with zero state number); wrong company / type / category", min_nontrivial=100),
         Layer("ble-contents", run_ble_parse, strategy=ble_mfr, n={"quick": 6000, "thorough": 80000}, min_nontrivial=300),
         Layer("ble-contents-atheris", run_fuzz, enumerate=lambda tier: iter([{"corpus": "empty", "runs": 400000}, {"corpus": "seeded", "runs": 400000}]), tiers=("thorough",),
               space="two libFuzzer campaigns of 400k executions on BleController._device_detected (first byte selects the pairing state), oracle inside the target"),
